@@ -14,10 +14,10 @@ EXPLANATION = ('llsym (real-algebraic) runs the real mj_crb, mj_rne, mj_mulM, mj
                'one body, two trees) and whose spatial inertias (cinert, 10 numbers per body), motion axes (cdof), axis derivatives, body velocities, joint velocities, accelerations, armatures and gravity are ALL symbolic. '
                'Claims, decided by z3 as polynomial / rational identities over every value: (1) Newton-Euler with acceleration a equals M a (M from the composite-rigid-body pass, applied with mj_mulM) plus Newton-Euler at a = 0, for '
                'every dof; (2) the stored L^T D L factorisation reconstructs M exactly on its sparsity pattern and vanishes off it; (3) mj_mulM(mj_solveM(y)) = y; (4) mj_fullM is symmetric, carries the stored entries and equals '
-               'mj_mulM column by column; (5) M is symmetric by construction, entries between dofs that are not ancestor-related are absent, and M(i,i) contains the armature.')
+               'mj_mulM column by column; (4b) mj_comVel: body velocities accumulate cdof*qvel along the tree and cdof_dot is the motion cross product with the velocity of the frame each axis is attached to; (5) M is symmetric by construction, entries between dofs that are not ancestor-related are absent, and M(i,i) contains the armature.')
 BOUNDS = {'quick': {'trees': 'chains of 3 and 4 one-dof bodies, forks (1 parent, 2 children; with a grandchild), body with 2 dofs + child, two independent trees; nv = 3..4', 'values': 'all reals'}, 'thorough': {'trees': 'same plus a 5-chain, a mixed tree with a dof-less body and a second tree (nv = 5), a 3-dof body with a child'}}
 OUTSIDE = ('positive definiteness of M (needs physical cinert: a semi-algebraic precondition on 10 numbers per body that nlsat does not get through for nv = 3); tendon armature; simple dofs (dof_simplenum > 0 shortcut); sleeping '
-           'bodies; mj_comVel (velocities are free symbols here, so claim (1) holds for any of them); sparsity-structure construction in engine_io.c (the M_rownnz/rowadr/colind arrays are derived in the harness from dof_parentid).')
+           'bodies; ball and free joints in mj_comVel (scalar joints are covered); sparsity-structure construction in engine_io.c (the M_rownnz/rowadr/colind arrays are derived in the harness from dof_parentid).')
 ASSUMPTIONS = ['real-number semantics', 'pivots of the factorisation non-zero (M symmetric positive definite in the callers)', 'no actuator armature (jnt_actuatorid = -1), ntendon = 0, sleep disabled',
                'mj_stackAllocInfo returns a fresh block (its own contract is C19)']
 BUDGET = {'quick': 600, 'thorough': 2400}
@@ -79,7 +79,7 @@ def world(name, data_sym, extra_vals=None):
     w = W.World('real'); nb, nv = S['nb'], S['nv']
     M, _ = W.full_struct(w, L, 'mjModel_', 'MJMODEL_POINTERS', {'nq': nv, 'nv': nv, 'njnt': nv, 'nbody': nb, 'ntree': 1, 'nC': S['nC'], 'nM': S['nC'], 'nD': nv * nv}, 'm', default_size=0, symbolic=('dof_armature',),
                          values={'body_parentid': S['par'], 'body_dofadr': S['dofadr'], 'body_dofnum': S['dnum'], 'dof_bodyid': S['dof_body'], 'dof_parentid': S['dof_par'], 'dof_simplenum': [0] * nv,
-                                 'dof_jntid': list(range(nv)), 'jnt_actuatorid': [-1] * nv, 'M_rownnz': S['rownnz'], 'M_rowadr': S['rowadr'], 'M_colind': S['colind'], 'body_weldid': list(range(nb)),
+                                 'dof_jntid': list(range(nv)), 'jnt_actuatorid': [-1] * nv, 'jnt_type': [build.enum_values('mjJNT_')['mjJNT_HINGE'] if i % 2 == 0 else build.enum_values('mjJNT_')['mjJNT_SLIDE'] for i in range(nv)], 'M_rownnz': S['rownnz'], 'M_rowadr': S['rowadr'], 'M_colind': S['colind'], 'body_weldid': list(range(nb)),
                                  'body_rootid': [0] + [1] * (nb - 1)})
     D, _ = W.full_struct(w, L, 'mjData_', 'MJDATA_POINTERS', {'nq': nv, 'nv': nv, 'nbody': nb, 'nC': S['nC'], 'nM': S['nC'], 'nD': nv * nv}, 'd', default_size=0, symbolic=tuple(data_sym), values=extra_vals or {})
     ar = w.obj('arena', 16384).zeros(); D.o.put(D.off('arena'), 'ptr', (ar, 0)); D.set('narena', 16384)
@@ -152,6 +152,41 @@ def unit_rne(tier, topo):
     cur = finals[0][0] if finals else st
     ck.reach('symbolic tree unconstrained', cur.pc)
     ck.memory_obligations([type('R', (), {'state': c_})() for c_, _ in finals], decode=dec)
+    return ck
+
+
+def cross3(a, b): return [a[1] * b[2] - a[2] * b[1], a[2] * b[0] - a[0] * b[2], a[0] * b[1] - a[1] * b[0]]
+
+
+def unit_comvel(tier, topo):
+    """mj_comVel on scalar joints: body velocity = parent velocity + sum cdof*qvel; cdof_dot_j = (velocity of the frame the axis is attached to, i.e. parent velocity plus the EARLIER joints of the same body) x_m cdof_j"""
+    ck = Checker('comvel_%s' % topo, tier, timeout_s=120, semantics='real')
+    S, w, M, D = world(topo, ('cdof', 'qvel', 'cvel', 'cdof_dot'))
+    nv, nb = S['nv'], S['nb']
+    ex = executor(nv, nb); st = w.to_state(ex)
+    res = ex.run('@mj_comVel', [w.P(M.o), w.P(D.o)], st); ck.note_results(ex, res)
+    cdof = D.arrays['cdof'][3]; qv = D.arrays['qvel'][3]
+    dec = lambda mdl: {'topology': topo, 'qvel': [str(W.evalnum(mdl, x)) for x in qv]}
+    def crossm(v, s_):      # spatial motion cross product, vectors are [angular; linear]
+        return cross3(v[0:3], s_[0:3]) + [a + b for a, b in zip(cross3(v[0:3], s_[3:6]), cross3(v[3:6], s_[0:3]))]
+    vel = {0: [z3.RealVal(0)] * 6}; cdd = {}
+    for b in range(1, nb):
+        v = list(vel[S['par'][b]])
+        for j in range(S['dnum'][b]):
+            d_ = S['dofadr'][b] + j; ax = cdof[6 * d_:6 * d_ + 6]
+            cdd[d_] = crossm(v, ax)
+            v = [v[k] + ax[k] * qv[d_] for k in range(6)]
+        vel[b] = v
+    for r in res:
+        if r.kind != 'return': continue
+        cv = arr(ex, r.state, w, D, 'cvel', 6 * nb); cd = arr(ex, r.state, w, D, 'cdof_dot', 6 * nv)
+        outs = [('cvel%d' % i, D.arrays['cvel'][0], 8 * i, 'f64', cv[i]) for i in range(6 * nb)] + [('cdof_dot%d' % i, D.arrays['cdof_dot'][0], 8 * i, 'f64', cd[i]) for i in range(6 * nv)]
+        rp = W.make_replay(so(), 'mj_comVel', w, [('ptr', (M.o, 0)), ('ptr', (D.o, 0))], outputs=outs, semantics='real')
+        for b in range(nb):
+            ck.prove('cvel of body %d = parent velocity + sum of cdof*qvel over its joints (world: 0)' % b, r.state.pc, z3.And(*[cv[6 * b + k] == vel[b][k] for k in range(6)]), site='mj_comVel:cvel', decode=dec, replay=rp)
+        for d_ in range(nv):
+            ck.prove('cdof_dot of dof %d = (parent velocity + earlier joints of the same body) x_m cdof' % d_, r.state.pc, z3.And(*[cd[6 * d_ + k] == cdd[d_][k] for k in range(6)]), site='mj_comVel:cdof_dot', decode=dec, replay=rp)
+    ck.reach('free symbols', []); ck.memory_obligations(res, decode=dec)
     return ck
 
 
@@ -238,4 +273,5 @@ def units(tier):
     u = []
     for t in topos:
         u.append(('rne_%s' % t, 'unit_rne', {'topo': t})); u.append(('factor_%s' % t, 'unit_factor', {'topo': t}))
+        if t in ('twodof', 'chain3', 'fork3', 'free3', 'mixed5'): u.append(('comvel_%s' % t, 'unit_comvel', {'topo': t}))
     return u
